@@ -51,6 +51,12 @@ func convertToComplex(other Object) (Complex, bool) {
 		return Complex(complex(b, 0)), true
 	case Int:
 		return Complex(complex(float64(b), 0)), true
+	case *BigInt:
+		f, err := b.Float()
+		if err != nil {
+			return 0, false
+		}
+		return Complex(complex(float64(f), 0)), true
 	case Bool:
 		if b {
 			return Complex(1), true
@@ -59,6 +65,22 @@ func convertToComplex(other Object) (Complex, bool) {
 		}
 	}
 	return 0, false
+}
+
+// Convert the other operand of an arithmetic operator to a Complex
+//
+// As convertToComplex, but an int too large for a float is an
+// OverflowError, not an operand of the wrong type
+func complexOperand(other Object) (Complex, bool, error) {
+	if b, ok := other.(*BigInt); ok {
+		f, err := b.Float()
+		if err != nil {
+			return 0, false, err
+		}
+		return Complex(complex(float64(f), 0)), true, nil
+	}
+	x, ok := convertToComplex(other)
+	return x, ok, nil
 }
 
 func (a Complex) M__str__() (Object, error) {
@@ -82,7 +104,11 @@ func (a Complex) M__abs__() (Object, error) {
 }
 
 func (a Complex) M__add__(other Object) (Object, error) {
-	if b, ok := convertToComplex(other); ok {
+	b, ok, err := complexOperand(other)
+	if err != nil {
+		return nil, err
+	}
+	if ok {
 		return Complex(a + b), nil
 	}
 	return NotImplemented, nil
@@ -97,14 +123,22 @@ func (a Complex) M__iadd__(other Object) (Object, error) {
 }
 
 func (a Complex) M__sub__(other Object) (Object, error) {
-	if b, ok := convertToComplex(other); ok {
+	b, ok, err := complexOperand(other)
+	if err != nil {
+		return nil, err
+	}
+	if ok {
 		return Complex(a - b), nil
 	}
 	return NotImplemented, nil
 }
 
 func (a Complex) M__rsub__(other Object) (Object, error) {
-	if b, ok := convertToComplex(other); ok {
+	b, ok, err := complexOperand(other)
+	if err != nil {
+		return nil, err
+	}
+	if ok {
 		return Complex(b - a), nil
 	}
 	return NotImplemented, nil
@@ -115,7 +149,11 @@ func (a Complex) M__isub__(other Object) (Object, error) {
 }
 
 func (a Complex) M__mul__(other Object) (Object, error) {
-	if b, ok := convertToComplex(other); ok {
+	b, ok, err := complexOperand(other)
+	if err != nil {
+		return nil, err
+	}
+	if ok {
 		return Complex(a * b), nil
 	}
 	return NotImplemented, nil
@@ -130,7 +168,11 @@ func (a Complex) M__imul__(other Object) (Object, error) {
 }
 
 func (a Complex) M__truediv__(other Object) (Object, error) {
-	if b, ok := convertToComplex(other); ok {
+	b, ok, err := complexOperand(other)
+	if err != nil {
+		return nil, err
+	}
+	if ok {
 		if b == 0 {
 			return nil, ExceptionNewf(ZeroDivisionError, "complex division by zero")
 		}
@@ -140,7 +182,11 @@ func (a Complex) M__truediv__(other Object) (Object, error) {
 }
 
 func (a Complex) M__rtruediv__(other Object) (Object, error) {
-	if b, ok := convertToComplex(other); ok {
+	b, ok, err := complexOperand(other)
+	if err != nil {
+		return nil, err
+	}
+	if ok {
 		if a == 0 {
 			return nil, ExceptionNewf(ZeroDivisionError, "complex division by zero")
 		}
@@ -223,14 +269,22 @@ func (a Complex) M__pow__(other, modulus Object) (Object, error) {
 	if modulus != None {
 		return NotImplemented, nil
 	}
-	if b, ok := convertToComplex(other); ok {
+	b, ok, err := complexOperand(other)
+	if err != nil {
+		return nil, err
+	}
+	if ok {
 		return Complex(cmplx.Pow(complex128(a), complex128(b))), nil
 	}
 	return NotImplemented, nil
 }
 
 func (a Complex) M__rpow__(other Object) (Object, error) {
-	if b, ok := convertToComplex(other); ok {
+	b, ok, err := complexOperand(other)
+	if err != nil {
+		return nil, err
+	}
+	if ok {
 		return Complex(cmplx.Pow(complex128(b), complex128(a))), nil
 	}
 	return NotImplemented, nil
